@@ -2,6 +2,7 @@
 package c14
 
 import (
+	"encoding/json"
 	"fmt"
 	"slices"
 	"testing"
@@ -76,6 +77,15 @@ type Case struct {
 	P    Pred   `json:"p"`
 	M    Mapper `json:"m"`
 	Post []int  `json:"post"` // elements added to derived containers / receiver afterwards
+	// Past: how the receiver came to hold its elements — "" built directly; "shrink"
+	// (lists) many more elements were appended and removed again one by one, so that
+	// a backing array has grown and shrunk; "load" (lists) the elements were loaded by
+	// FromJSON over other content; "clear" other content was added and cleared first
+	Past string `json:"past,omitempty"`
+	// Again: after all enumerable functions were checked once, these elements (keys)
+	// are added to the receiver and everything is checked a second time — anything an
+	// enumerable call remembered about the receiver must not outlive the change
+	Again []int `json:"again,omitempty"`
 }
 
 type pair struct{ k, v int }
@@ -324,6 +334,14 @@ func runIdx[S enumIdx[S]](c Case, recv S, fresh func() S, it func(S) []pair) (pb
 	if err := unchanged("mutating the derived containers"); err != nil {
 		return info, err
 	}
+	if len(c.Again) > 0 {
+		recv.Add(c.Again...)
+		c2 := c
+		c2.Again = nil
+		info2, err := runIdx(c2, recv, fresh, it)
+		info2.Label("second-round")
+		return info2, err
+	}
 	if len(c.Post) > 0 {
 		fs, fm = fp.Of(sel), fp.Of(mapped)
 		recv.Add(c.Post...)
@@ -551,6 +569,16 @@ func runKey[S enumKey[S]](c Case, recv S, fresh func() S, it func(S) []pair) (pb
 	if err := unchanged("mutating the derived containers"); err != nil {
 		return info, err
 	}
+	if len(c.Again) > 0 {
+		for i, k := range c.Again {
+			recv.Put(k, 700+i)
+		}
+		c2 := c
+		c2.Again = nil
+		info2, err := runKey(c2, recv, fresh, it)
+		info2.Label("second-round")
+		return info2, err
+	}
 	if len(c.Post) > 0 {
 		fs, fm := fp.Of(sel), fp.Of(mapped)
 		recv.Put(c.Post[0], -5)
@@ -564,6 +592,49 @@ func runKey[S enumKey[S]](c Case, recv S, fresh func() S, it func(S) []pair) (pb
 	return info, nil
 }
 
+// junk is the other content a receiver with a past held before.
+func junk(c Case) []int {
+	out := make([]int, 0, 3*len(c.Adds)+8)
+	for i := 0; i < 3*len(c.Adds)+8; i++ {
+		out = append(out, 9000+i*3)
+	}
+	return out
+}
+
+type pastList interface {
+	Add(...int)
+	Remove(int)
+	Size() int
+	Clear()
+	FromJSON([]byte) error
+}
+
+// listPast brings a list that was built from c.Adds to the same contents by a detour.
+func listPast(l pastList, c Case) error {
+	switch c.Past {
+	case "shrink":
+		extra := junk(c)
+		l.Add(extra...)
+		for range extra {
+			l.Remove(l.Size() - 1)
+		}
+	case "clear":
+		l.Add(junk(c)...)
+		l.Clear()
+		l.Add(c.Adds...)
+	case "load":
+		l.Add(junk(c)[:5]...)
+		doc, _ := json.Marshal(c.Adds)
+		if c.Adds == nil {
+			doc = []byte("[]")
+		}
+		if err := l.FromJSON(doc); err != nil {
+			return fmt.Errorf("%s: FromJSON(%s) failed: %v", c.Kind, doc, err)
+		}
+	}
+	return nil
+}
+
 func check(c Case) (pbt.Info, error) {
 	cmpF := dom.Cmp(c.Cmp)
 	val := func(i int) int {
@@ -575,6 +646,9 @@ func check(c Case) (pbt.Info, error) {
 	switch c.Kind {
 	case "arraylist":
 		l := arraylist.New(c.Adds...)
+		if err := listPast(l, c); err != nil {
+			return pbt.Info{}, err
+		}
 		return runIdx(c, l, func() *arraylist.List[int] { return arraylist.New[int]() }, func(l *arraylist.List[int]) []pair {
 			var out []pair
 			for it := l.Iterator(); it.Next(); {
@@ -584,6 +658,9 @@ func check(c Case) (pbt.Info, error) {
 		})
 	case "singlylinkedlist":
 		l := singlylinkedlist.New(c.Adds...)
+		if err := listPast(l, c); err != nil {
+			return pbt.Info{}, err
+		}
 		return runIdx(c, l, func() *singlylinkedlist.List[int] { return singlylinkedlist.New[int]() }, func(l *singlylinkedlist.List[int]) []pair {
 			var out []pair
 			for it := l.Iterator(); it.Next(); {
@@ -593,6 +670,9 @@ func check(c Case) (pbt.Info, error) {
 		})
 	case "doublylinkedlist":
 		l := doublylinkedlist.New(c.Adds...)
+		if err := listPast(l, c); err != nil {
+			return pbt.Info{}, err
+		}
 		return runIdx(c, l, func() *doublylinkedlist.List[int] { return doublylinkedlist.New[int]() }, func(l *doublylinkedlist.List[int]) []pair {
 			var out []pair
 			it := l.Iterator()
@@ -602,7 +682,12 @@ func check(c Case) (pbt.Info, error) {
 			return out
 		})
 	case "treeset":
-		s := treeset.NewWith(cmpF, c.Adds...)
+		s := treeset.NewWith(cmpF)
+		if c.Past == "clear" {
+			s.Add(junk(c)...)
+			s.Clear()
+		}
+		s.Add(c.Adds...)
 		s.Remove(c.Rems...)
 		return runIdx(c, s, func() *treeset.Set[int] { return treeset.NewWith(cmpF) }, func(s *treeset.Set[int]) []pair {
 			var out []pair
@@ -613,7 +698,12 @@ func check(c Case) (pbt.Info, error) {
 			return out
 		})
 	case "linkedhashset":
-		s := linkedhashset.New(c.Adds...)
+		s := linkedhashset.New[int]()
+		if c.Past == "clear" {
+			s.Add(junk(c)...)
+			s.Clear()
+		}
+		s.Add(c.Adds...)
 		s.Remove(c.Rems...)
 		return runIdx(c, s, func() *linkedhashset.Set[int] { return linkedhashset.New[int]() }, func(s *linkedhashset.Set[int]) []pair {
 			var out []pair
@@ -625,6 +715,12 @@ func check(c Case) (pbt.Info, error) {
 		})
 	case "treemap":
 		m := treemap.NewWith[int, int](cmpF)
+		if c.Past == "clear" {
+			for i, k := range junk(c) {
+				m.Put(k, 5000+i)
+			}
+			m.Clear()
+		}
 		for i, k := range c.Adds {
 			m.Put(k, val(i))
 		}
@@ -640,6 +736,12 @@ func check(c Case) (pbt.Info, error) {
 		})
 	case "linkedhashmap":
 		m := linkedhashmap.New[int, int]()
+		if c.Past == "clear" {
+			for i, k := range junk(c) {
+				m.Put(k, 5000+i)
+			}
+			m.Clear()
+		}
 		for i, k := range c.Adds {
 			m.Put(k, val(i))
 		}
@@ -655,6 +757,12 @@ func check(c Case) (pbt.Info, error) {
 		})
 	case "treebidimap":
 		m := treebidimap.NewWith[int, int](cmpF, cmpF)
+		if c.Past == "clear" {
+			for i, k := range junk(c) {
+				m.Put(k, 5000+i)
+			}
+			m.Clear()
+		}
 		for i, k := range c.Adds {
 			m.Put(k, val(i))
 		}
@@ -727,6 +835,10 @@ func gen(kind string) func(t *rapid.T) Case {
 		}
 		if kind != "arraylist" && kind != "singlylinkedlist" && kind != "doublylinkedlist" {
 			c.Rems = rapid.SliceOfN(rapid.IntRange(0, 12), 0, 2).Draw(t, "rems")
+		}
+		c.Past = rapid.SampledFrom([]string{"", "", "", "shrink", "load", "clear"}).Draw(t, "past")
+		if rapid.IntRange(0, 2).Draw(t, "second-round") == 1 {
+			c.Again = rapid.SliceOfN(rapid.IntRange(0, hi), 1, 3).Draw(t, "again")
 		}
 		c.P = genPred(t)
 		c.M = genMapper(t)
